@@ -684,6 +684,27 @@ class Payload:
 
         return Payload(ans)
 
+    def __rand__(self, other):
+        """__rand__"""
+
+        assert not isinstance(other, Payload)
+
+        return Payload(other & self.value)
+
+    def __ror__(self, other):
+        """__ror__"""
+
+        assert not isinstance(other, Payload)
+
+        return Payload(other | self.value)
+
+    def __rlshift__(self, other):
+        """__rlshift__"""
+
+        assert not isinstance(other, Payload)
+
+        return Payload(other << self.value)
+
 #
 # Copy operation
 #
